@@ -413,6 +413,17 @@ func point(kind OpKind, addr unsafe.Pointer, size uintptr) {
 	x.trace(me, me.pending, "")
 }
 
+// FineMode makes the plain-store points inserted by the instrumenter active.
+var FineMode bool
+
+// PlainStore is called before every plain store to possibly shared memory in the instrumented
+// packages; it is a scheduling point only in fine mode.
+func PlainStore() {
+	if FineMode {
+		point(OpStore, nil, 0)
+	}
+}
+
 // Point is an always-enabled scheduling point (atomic shims, harness callbacks).
 func Point(kind OpKind, addr unsafe.Pointer, size uintptr) { point(kind, addr, size) }
 
@@ -746,5 +757,6 @@ func Run(prefix []int, expect []Choice, tracing bool, horizon int, body func()) 
 	AccessHook = nil
 	OpHook = nil
 	FaultClassifier = nil
+	FineMode = false
 	return Result{Choices: x.Choices, Steps: x.Steps, Switches: x.Switches, Verdict: x.Verdict, Notes: x.Notes, Trace: x.Trace, ObsHash: x.ObsHash}
 }
